@@ -44,6 +44,23 @@ Section C03.
   Lemma stable_callp en id rs : stable en (ECallP id rs) rs [Ev id []].
   Proof. intros loc tr _. apply ev_ECallP. Qed.
 
+  (* a call with arguments f_id(a1, ..., an): if every argument is stable and single-valued, the call is
+     stable; the callee's event records exactly the argument values, in order *)
+  Inductive stable_args (en : env) : list expr -> list val -> trace -> Prop :=
+    | SA_nil : stable_args en [] [] []
+    | SA_cons a v ta t vs tt : stable en a [v] ta -> stable_args en t vs tt -> stable_args en (a :: t) (v :: vs) (ta ++ tt).
+
+  Lemma stable_args_list en args vs targs : stable_args en args vs targs ->
+    forall loc tr, nonuser loc -> ev_list err_text self args (loc ++ en) tr = (RVal vs, loc ++ en, tr ++ targs).
+  Proof. induction 1 as [|a v ta t vs tt Ha _ IH]; intros loc tr Hn.
+    - cbn [ev_list]. now rewrite app_nil_r.
+    - cbn [ev_list]. rewrite (Ha loc tr Hn). cbn [one]. rewrite (IH loc _ Hn). now rewrite <- app_assoc. Qed.
+
+  Lemma stable_calla en id args rs vs targs : stable_args en args vs targs ->
+    stable en (ECallA id args rs) rs (targs ++ [Ev id vs]).
+  Proof. intros Ha loc tr Hn. rewrite ev_ECallA. rewrite (stable_args_list en args vs targs Ha loc tr Hn).
+    now rewrite <- app_assoc. Qed.
+
   (* --- the common prefix of both lowerings:  var _gop_err error; targets..., _gop_err = X --- *)
   Lemma assign_prefix (targets : list name) (ws vs : list val) (x : expr) (eo : option err) tx en tr rest :
     length ws = length targets -> length vs = length targets -> distinct targets ->
